@@ -90,19 +90,17 @@ TapeSegs(blocks, fe, gpol) == << <<0, fe, "w">> >> \o SegsFrom(blocks, 1, gpol %
 
 \* Named deviation (SkoolKit): when nothing but silence at an unchanged level follows the last tail
 \* pulse of the tape, that tail pulse is never ended (its closing edge is dropped).
-\* a zero-length pulse of sample data: merged away, never an edge
-Merged(s) == s[3] = "d" /\ s[2] = 0
 LastTail(segs) == IF \E k \in 1..Len(segs) : segs[k][3] = "t"
                   THEN CHOOSE k \in 1..Len(segs) : segs[k][3] = "t" /\ \A j \in (k + 1)..Len(segs) : segs[j][3] # "t"
                   ELSE 0
 FinalTailDropped(segs) ==
   LET k == LastTail(segs) IN
   k > 0 /\ \A j \in (k + 1)..Len(segs) : segs[j][3] = "w" /\ segs[j][1] = 1 - segs[k][1]
-\* (when merged zero-length pulses of sample data follow the last tail pulse as well, whether its closing
-\* edge is dropped depends on the bookkeeping of the generator; the specification then allows both)
+\* (when nothing of positive length but silence follows the last tail pulse - only zero-length pulses - whether
+\* its closing edge is dropped depends on the bookkeeping of the generator; the specification then allows both)
 FinalTailEither(segs) ==
   LET k == LastTail(segs) IN
-  k > 0 /\ ~FinalTailDropped(segs) /\ \A j \in (k + 1)..Len(segs) : Merged(segs[j]) \/ segs[j][3] = "w"
+  k > 0 /\ ~FinalTailDropped(segs) /\ \A j \in (k + 1)..Len(segs) : segs[j][2] = 0 \/ segs[j][3] = "w"
 \* the open tail pulse still begins (a change of level delimits what precedes it) but has no length
 OpenTail(segs) == LET k == LastTail(segs) IN Append(SubSeq(segs, 1, k - 1), <<segs[k][1], 0, "t">>)
 FiniteSegs(segs) == IF FinalTailDropped(segs) THEN OpenTail(segs) ELSE segs
@@ -131,32 +129,29 @@ Monotone(edges) == \A k \in 1..(Len(edges) - 1) : edges[k] <= edges[k + 1]
 
 \* the signal the tape specifies (finite part) and the one an edge list plays
 \* Which part of the specified signal an edge list can show: silence is delimited only by a later change of
-\* level; a zero-length pulse of sample data ("d" of duration 0) is merged away and delimits nothing, whereas
-\* a zero-length pulse of a tone is played as two edges.  So trailing merged pulses and the trailing silence
-\* at one level are not part of what is compared; the leading silence always is.
-RECURSIVE DropMerged(_)
-DropMerged(segs) == IF Len(segs) > 1 /\ Merged(Last(segs)) THEN DropMerged(Front(segs)) ELSE segs
-RECURSIVE TrimLevel(_, _)
-TrimLevel(segs, lv) ==
-  IF Len(segs) > 1 /\ Merged(Last(segs)) THEN TrimLevel(Front(segs), lv)
-  ELSE IF Len(segs) > 1 /\ Last(segs)[3] = "w" /\ Last(segs)[1] = lv THEN TrimLevel(Front(segs), lv)
-  ELSE segs
+\* level; a pulse of no length (a blip: zero-length pulse of sample data, of a tone, or an open tail pulse) is a
+\* change of level that lasts no time.  So trailing blips and the trailing silence at one level are not part of
+\* what is compared; the leading silence always is.
+Blip(s) == s[2] = 0 /\ s[3] # "w"
 \* (an open tail pulse - see OpenTail - delimits what precedes it only if that is at another level)
 IsOpenTail(s) == s[3] = "t" /\ s[2] = 0
-TrimSilence(segs) == LET s1 == DropMerged(segs) IN
-                     IF Len(s1) > 1 /\ IsOpenTail(Last(s1)) THEN TrimLevel(Front(s1), Last(s1)[1]) ELSE TrimLevel(s1, Last(s1)[1])
-ExpectedSignal(blocks, fe, gpol) == Canon(TrimSilence(FiniteSegs(TapeSegs(blocks, fe, gpol))))
-ExpectedSignals(blocks, fe, gpol) ==
-  LET segs == TapeSegs(blocks, fe, gpol) IN
-  IF FinalTailEither(segs) THEN {Canon(TrimSilence(segs)), Canon(TrimSilence(OpenTail(segs)))}
-  ELSE {Canon(TrimSilence(FiniteSegs(segs)))}
+RECURSIVE DropBlips(_)
+DropBlips(segs) == IF Len(segs) > 1 /\ Blip(Last(segs)) THEN DropBlips(Front(segs)) ELSE segs
+RECURSIVE TrimLevel(_, _)
+TrimLevel(segs, lv) ==
+  IF Len(segs) > 1 /\ Blip(Last(segs)) THEN TrimLevel(Front(segs), lv)
+  ELSE IF Len(segs) > 1 /\ Last(segs)[3] = "w" /\ Last(segs)[1] = lv THEN TrimLevel(Front(segs), lv)
+  ELSE segs
+TrimSilence(segs) == IF Len(segs) > 1 /\ IsOpenTail(Last(segs)) THEN TrimLevel(Front(segs), Last(segs)[1])
+                     ELSE LET s1 == DropBlips(segs) IN TrimLevel(s1, Last(s1)[1])
 PlayedSignal(edges) == Canon(EdgeSegs(edges))
 
-\* Zero-length pulses of sample data played within the silence the tape ends with are a change of level
-\* that lasts no time. Whether the silence before such a blip counts as delimited is not specified (the
-\* generator shows an edge when the block states a level other than the one the edge list shows, none
-\* when the level is implied): then an edge list may expose any part of the trailing silence.
-BlipTail(segs) == \E j \in 1..Len(segs) : Merged(segs[j]) /\ \A i \in j..Len(segs) : Merged(segs[i]) \/ segs[i][3] = "w"
+\* Blips within the silence the tape ends with: whether the silence before such a blip counts as delimited is
+\* not specified (SkoolKit shows an edge when the block states a level other than the one its edge list shows or
+\* when the blip is a tone pulse, none when the level is implied or the blip is the leading zero-length pulse
+\* by which a PZX pulse block says "starts high"): then an edge list may expose any part of the trailing silence.
+BlipTail(segs) == \E j \in 1..Len(segs) : /\ Blip(segs[j]) /\ ~IsOpenTail(segs[j])
+                                          /\ \A i \in j..Len(segs) : Blip(segs[i]) \/ segs[i][3] = "w"
 \* p is an initial part of q: all segments but the last equal, the last at the same level and not longer
 SigPrefix(p, q) == \/ Len(p) = 0
                    \/ /\ Len(p) <= Len(q) /\ \A j \in 1..(Len(p) - 1) : p[j] = q[j]
@@ -166,8 +161,11 @@ SignalVariants(segs) == IF FinalTailEither(segs) THEN {segs, OpenTail(segs)} ELS
 SignalIs(played, segs) ==
   \E v \in SignalVariants(segs) :
      \/ played = Canon(TrimSilence(v))
-     \/ BlipTail(v) /\ SigPrefix(Canon(TrimSilence(v)), played) /\ SigPrefix(played, Canon(DropMerged(v)))
+     \/ BlipTail(v) /\ SigPrefix(Canon(TrimSilence(v)), played) /\ SigPrefix(played, Canon(v))
 SignalOK(edges, blocks, fe, gpol) == SignalIs(PlayedSignal(edges), TapeSegs(blocks, fe, gpol))
+\* two descriptions of one tape: what the second one specifies is something the first one allows
+SameTape(decl, shaped, fe, gpol) ==
+  \E v \in SignalVariants(TapeSegs(shaped, fe, gpol)) : SignalIs(Canon(TrimSilence(v)), TapeSegs(decl, fe, gpol))
 
 \* time at which segment k of segs starts
 StartOf(segs, k) == Sum([j \in 1..(k - 1) |-> segs[j][2]])
